@@ -109,6 +109,17 @@ def job_process_state(res):
             elif _re.match(r'@(_ZL|_ZN4vfpsL|_ZN12_GLOBAL__N_1)', g) and not const and 'comdat' not in body[:40]:
                 found.append((name, g.strip('@ ')[:120], 'file-scope static'))
         res.instrs += n
+    # the floating-point environment is process-wide (thread-wide) state as well: rounding mode, flush-to-zero / denormals-are-zero, trap masks - every bit-exactness claim (C02, C12) assumes the default one
+    fpenv = []
+    for name, path in sorted(bld['ll'].items()):
+        cur = None
+        for ln in open(path):
+            if ln.startswith('define '):
+                m = _re.search(r'@("[^"]*"|[-\w.$]+)\(', ln); cur = m.group(1) if m else '?'
+            m = _re.search(r'\b(?:call|invoke)\b[^@]*@(llvm\.x86\.sse\.ldmxcsr|llvm\.set\.rounding|fesetround|fesetenv|feupdateenv|feenableexcept|fedisableexcept|fesetexceptflag|__fesetround|_controlfp|_control87)\(', ln)
+            if m: fpenv.append((name, cur, m.group(1)))
+    res.obs.append(Ob('no translation unit of the program changes the floating-point environment (rounding mode, flush-to-zero, denormals-are-zero, traps): found %d call(s)' % len(fpenv), 'holds' if not fpenv else 'violated',
+                      key='fp-environment', detail=str(fpenv[:3]), cex=None if not fpenv else {'replay': 'structural', 'calls': [list(x) for x in fpenv[:4]]}))
     res.paths += len(bld['ll'])
     res.obs.append(Ob('no translation unit of the program (%d) keeps hidden process-wide state: no mutable function-local static in a vfps function, no mutable file-scope static (found %d)' % (len(bld['ll']), len(found)),
                       'holds' if not found else 'violated', key='process-wide-state', detail=str(found[:3]), cex=None if not found else {'replay': 'structural', 'statics': [list(x) for x in found[:6]]}))
